@@ -277,11 +277,16 @@ def upload_buffer_oracle(obs):
 
 def download_window_oracle(obs):
     viol = []
+    for st in getattr(obs, 'locksets', ()) or ():
+        if st['violations']:
+            what, name, th = st['violations'][0]
+            viol.append(V(f'the in-memory download window (sliding-window semaphore) had its state ({name}) written by thread {th} without the '
+                          f'semaphore\'s lock: an update lost there leaves the window one slot too wide (or too narrow) for good', sym='lockset'))
     cfg = obs.config
     win = cfg.max_in_memory_download_chunks
     C = cfg.multipart_chunksize
     stats = {'max_lookahead': 0, 'nonseekable_ranged': 0, 'reached_window': 0, 'max_alive_body_bytes': 0, 'alive_samples': 0,
-             'alive_at_window': 0}
+             'alive_at_window': 0, 'lockset_writes_checked': sum(st['count'][0] for st in (getattr(obs, 'locksets', ()) or ()))}
     io_chunk = cfg.io_chunksize
     # response data alive inside the library: at most the window's worth of parts awaiting their turn, the pending destination
     # writes, and one chunk in the hands of each request thread and of the IO thread
